@@ -682,6 +682,16 @@ class ExprMixin:
             return self.list_concat(a, b, node)
         if a.ty is TStr and b.ty is TStr and isinstance(op, ast.Add):
             return SV(TStr, z3.Concat(a.t, b.t))
+        if isinstance(a.ty, TList) and a.t is not None and b.ty is TInt and isinstance(op, ast.Mult):
+            # list repetition: an otherwise unconstrained list of the right length whose elements all come from the operand
+            r = self.ctx.fresh(a.ty, "rep")
+            self.ctx.note_ty(a.ty)
+            self.ctx.assume_wf(r)
+            ln = a.ty.len(a.t)
+            self.ctx.assume(a.ty.len(r.t) == z3.If(b.t > 0, ln * b.t, 0))
+            j = z3.Int("j!rep")
+            self.ctx.assume(z3.ForAll([j], z3.Implies(z3.And(j >= 0, j < a.ty.len(r.t)), z3.Select(a.ty.elems_fn()(a.t), z3.Select(a.ty.arr(r.t), j)))))
+            return r
         if a.ty is TStr and isinstance(op, ast.Mod):
             return self.ctx.fresh(TStr, "fmt")
         if isinstance(a.ty, TSet) and isinstance(b.ty, TSet):
